@@ -8,6 +8,12 @@
                           struct{K int; S string}; elements go through an injective
                           codec int <-> T, harness/c05_instances.go); the model is the
                           same for every inst (cfg 0|2|4 and 1|3|5 are one case each).
+              inst 3..5 = element types whose == is not the identity of values
+                          (float64, struct{X, Y float64}, any; harness/c05_nan.go):
+                          the integers are CODES (C05_ModelNaN.v: c_nan, c_nan2, c_nz,
+                          c_u1, c_u2, c_m1).  cfg 6|8|10 and 7|9|11 run the generic
+                          models [gss_step go_eq] / [gls_step go_eq] and are judged
+                          by [glifo_step go_eq].
               op  1 Push arg | 2 Pop | 3 Peek | 4 Search arg | 5 Size
    observed = concat (result of every op) ++ end-of-case observables, where the
               end of a case is: Size (= n), min(n,4096) x Pop, Size, Pop, Size,
@@ -17,7 +23,7 @@
               a Go panic -> [-777; 0] and the case stops there.
    harness/c06.go is the mirror. *)
 
-From Gogu Require Import Base C05_DList C05_Model C06_Model.
+From Gogu Require Import Base C05_DList C05_Model C05_ModelNaN C06_Model C06_ModelNaN.
 
 Definition sdec_op (rec : list Z) : option sop :=
   match rec with
@@ -59,6 +65,8 @@ Definition c06_run (w : list Z) : list Z :=
           match cfg with
           | 0 | 2 | 4 => senc_outs (sobserve ss_step ss_new ops)
           | 1 | 3 | 5 => senc_outs (sobserve ls_step (ls_new t) ops)
+          | 6 | 8 | 10 => senc_outs (sobserve (gss_step go_eq) ss_new ops)
+          | 7 | 9 | 11 => senc_outs (sobserve (gls_step go_eq) (ls_new t) ops)
           | _ => wire_error
           end
       | None => wire_error
@@ -76,6 +84,8 @@ Definition c06_spec (w : list Z) : list Z :=
           match cfg with
           | 0 | 2 | 4 => senc_outs (sobserve lifo_step [] ops)
           | 1 | 3 | 5 => senc_outs (sobserve lifo_step [t] ops)
+          | 6 | 8 | 10 => senc_outs (sobserve (glifo_step go_eq) [] ops)
+          | 7 | 9 | 11 => senc_outs (sobserve (glifo_step go_eq) [t] ops)
           | _ => wire_error
           end
       | None => wire_error
